@@ -13,8 +13,11 @@ hold; when they do not hold the case is one of the listed defect classes or the 
 violation is reported).
 
 What they exclude is exactly what the code gets wrong (or what needs context):
-* names / keys with a byte the reader would not take as part of the name (`SpecNameOk`,
-  `LibNameOk`) — the writer emits names raw, no `#xx`;
+* names / keys: since commit 16fac722 the writer escapes them (`escapeName`), so the independent
+  reader needs nothing but "these are bytes" (`NameBytes`); the library's `read_name` builds the
+  `String` one `char` per byte (`value as char`), so the *same `String`* comes back only for
+  ASCII names (`NameAscii`); `SpecNameOk` / `LibNameOk` are the conditions for names written
+  *raw* (the writer before that commit; content-stream operands, C30);
 * literal strings with a CR for the independent reader (CR is emitted raw, read as LF);
 * an integer that the *following bytes* turn into an indirect reference
   (`Spec.refAhead` / the library's `Integer Integer R` look-ahead, which also takes the name `/R`);
@@ -54,11 +57,23 @@ def allB (p : Nat → Bool) : List Nat → Bool
   | [] => true
   | b :: r => p b && allB p r
 
-/-- a name the independent reader reads back verbatim: regular characters only, no `#` -/
+/-- a name is a byte string — all the independent reader needs since the writer escapes names
+    (commit 16fac722) -/
+def NameBytes (n : List Nat) : Bool := allB (fun b => b < 256) n
+
+/-- a name the library reads back as the same `String`: ASCII only.  `read_name` pushes
+    `byte as char` / `value as char`, so the `char`s read are the *bytes* written
+    (`lib_next_name_bytes`, every byte string) and the `String` they form is the one written
+    exactly when no byte is ≥ 0x80 (`utf8OfLatin1_eq_iff`). -/
+def NameAscii (n : List Nat) : Bool := allB (fun b => b < 128) n
+
+/-- a *raw* (unescaped) name the independent reader reads back verbatim: regular characters only,
+    no `#` — the hypothesis the writer needed before commit 16fac722, still what a name written
+    verbatim (content streams, C30) needs -/
 def SpecNameOk (n : List Nat) : Bool := allB (fun b => Spec.Syntax.isRegular b && b != 35) n
 
-/-- a name the library reads back as the same `String`: no terminator of `read_name`, no `#`,
-    ASCII only (bytes ≥ 0x80 are read one `char` per byte) -/
+/-- a *raw* name the library reads back as the same `String`: no terminator of `read_name`, no
+    `#`, ASCII only (bytes ≥ 0x80 are read one `char` per byte) -/
 def LibNameOk (n : List Nat) : Bool := allB (fun b => !Lexer.isBreak b && b != 35 && b < 128) n
 
 def NoCR (s : List Nat) : Bool := allB (fun b => b != 13) s
@@ -120,7 +135,7 @@ def SafeSpec : Obj → List Nat → Bool
       (!Spec.Syntax.allDigits (trimReal t) || (Spec.Syntax.refAhead rest).isNone)
   | .str s, _ => NoCR s
   | .hexstr bs, _ => allB (fun b => b < 256) bs
-  | .name n, rest => SpecNameOk n && specEnds rest
+  | .name n, rest => NameBytes n && specEnds rest
   | .ref _ _, rest => specEnds rest
   | .arr xs, rest => SafeSpecElems true xs (93 :: rest)
   | .dict kvs, rest => SafeSpecEntries kvs (10 :: 62 :: 62 :: rest)
@@ -130,7 +145,7 @@ def SafeSpecElems : Bool → List Obj → List Nat → Bool
 def SafeSpecEntries : List (List Nat × Obj) → List Nat → Bool
   | [], _ => true
   | (k, v) :: kvs, rest =>
-    SpecNameOk k && SafeSpec v (serEntries kvs ++ rest) && SafeSpecEntries kvs rest
+    NameBytes k && SafeSpec v (serEntries kvs ++ rest) && SafeSpecEntries kvs rest
 end
 
 mutual
@@ -148,7 +163,7 @@ def SafeLib : Obj → List Nat → Bool
       else true)
   | .str _, _ => true
   | .hexstr bs, _ => allB (fun b => b < 256) bs
-  | .name n, rest => LibNameOk n && libEnds rest
+  | .name n, rest => NameAscii n && libEnds rest
   | .ref n g, rest => n ≤ 9999999 && g ≤ 65535 && libEnds rest
   | .arr xs, rest => SafeLibElems true xs (93 :: rest)
   | .dict kvs, rest => SafeLibEntries kvs (10 :: 62 :: 62 :: rest) && libDictFollowOk rest
@@ -158,7 +173,7 @@ def SafeLibElems : Bool → List Obj → List Nat → Bool
 def SafeLibEntries : List (List Nat × Obj) → List Nat → Bool
   | [], _ => true
   | (k, v) :: kvs, rest =>
-    LibNameOk k && SafeLib v (serEntries kvs ++ rest) && SafeLibEntries kvs rest
+    NameAscii k && SafeLib v (serEntries kvs ++ rest) && SafeLibEntries kvs rest
 end
 
 /-! ## defect classes present in a tree (for the oracle's explanation of a failure) -/
